@@ -70,7 +70,7 @@ structure CertView where
   subjectCNs : List String
   extsOk : Bool
   san : Option SanFirst
-  ekuFirst : Option String
+  eku : Option (List String)      -- ExtendedKeyUsage present → dotted OIDs in order
   bcCa : Option Bool
   appleNonce : Option Bytes
   keyDesc : Option Bytes
@@ -88,6 +88,13 @@ structure KeyDescView where
   teeAllAppsNativeIsNone : Bool
   teeOrigin : Option Int
   teePurpose : Option (List Int)
+  deriving DecidableEq, Repr, Inhabited
+
+/-- a trust anchor handed to the chain validator: PEM bytes the RP supplied, or one of the
+constants of `known_root_certs.py`, referred to by name -/
+inductive Root
+  | pem (b : Bytes)
+  | builtin (name : String)
   deriving DecidableEq, Repr, Inhabited
 
 inductive ChainOutcome
